@@ -34,6 +34,7 @@ type PtrV struct {
 	Path   []Step
 	Typ    types.Type // pointer type
 	Snap   bool       // points into a read-only snapshot
+	NonNil bool       // known non-nil (fresh allocation, global)
 }
 
 type TupleV []Val
@@ -352,6 +353,7 @@ func (x *Exec) Alloc(st *State, t types.Type, ptrT types.Type) PtrV {
 		ptrT = types.NewPointer(t)
 	}
 	p := x.PtrFromTerm(ref, ptrT)
+	p.NonNil = true
 	if a, ok := t.Underlying().(*types.Array); ok {
 		_, hs := x.elemRegion(a.Elem())
 		h := x.heapGet(st, p.Region, hs)
@@ -396,14 +398,7 @@ func fieldOfMk(s Term, i int, srt Sort, sel string) Term {
 	if strings.HasPrefix(s.S, "(mk-slice ") {
 		parts := splitArgs(s.S)
 		if len(parts) == 5 {
-			t := Raw(srt, parts[i+1])
-			// recover constness
-			if strings.HasPrefix(parts[i+1], "#x") {
-				var v uint64
-				fmt.Sscanf(parts[i+1][2:], "%x", &v)
-				return BVUint(v, srt.BVWidth())
-			}
-			return t
+			return atomTerm(parts[i+1], srt)
 		}
 	}
 	return App(srt, sel, s)
